@@ -16,3 +16,11 @@
 (0 (1000000 50 0) ((7 (3 5)) (9 3 100 200) (6) (1 3 11) (9 5 40 60) (6) (13 3 2) (1 3 105) (1 5 25)))
 ; straggler without any refresh in between
 (0 (1000 7 0) ((9 1 10 20) (7 (1)) (6) (1 1 3) (13 1 1) (1 1 12)))
+; the owner stops while blocked on the emission of record 15 (on the progress grid): 15 must not have been broadcast as progress
+(0 (1000 5 0) ((9 1 10 20) (7 (1)) (6) (1 1 5) (14 1) (7 (1)) (6) (1 1 12)))
+; the owner stops while handling the completing record
+(0 (1000 5 0) ((9 1 10 12) (7 (1)) (6) (1 1 3) (14 1) (7 (1)) (6) (1 1 3)))
+; F11: straggler on the broadcast grid, then a refresh caused by another partition: 13..19 lost
+(0 (1000 5 0) ((9 1 10 30) (7 (1 2)) (6) (1 1 3) (15 1 6) (9 2 0 5) (6) (1 1 15)))
+; F11: straggler beyond to closes the request: 13..20 lost
+(0 (1000 5 0) ((9 1 10 20) (7 (1)) (6) (1 1 3) (15 1 7) (1 1 12)))
